@@ -101,6 +101,8 @@ def sub_attrs(a: Any, acc: list[Any], depth: int = 0):
         return
     if isinstance(a, Attribute):
         acc.append(a)
+        if type(a).__name__ == "DenseResourceAttr":     # its key is a handle into the module's resource section, not a value of its own
+            return
         if isinstance(a, ParametrizedAttribute):
             for p in a.parameters:
                 sub_attrs(p, acc, depth + 1)
